@@ -31,6 +31,7 @@ import (
 	"github.com/emitter-io/emitter/internal/event"
 	"github.com/emitter-io/emitter/internal/message"
 	"github.com/emitter-io/emitter/internal/provider/logging"
+	"github.com/emitter-io/emitter/internal/verifyield"
 	"github.com/weaveworks/mesh"
 )
 
@@ -283,13 +284,16 @@ func (s *Swarm) merge(buf []byte) (mesh.GossipData, error) {
 	}
 
 	// Remember which of the incoming subscriptions we currently consider active
+	verifyield.Point("cluster.Swarm.merge:entry")
 	active := make(map[string]bool)
 	other.Subscriptions(func(ev *event.Subscription, _ event.Value) {
 		active[ev.Key()] = s.state.Has(ev)
 	})
 
 	// Merge and get the delta
+	verifyield.Point("cluster.Swarm.merge:snapshot")
 	delta := s.state.Merge(other)
+	verifyield.Point("cluster.Swarm.merge:merged")
 	other.Subscriptions(func(ev *event.Subscription, v event.Value) {
 		key := ev.Key()
 		if ev.Peer == uint64(s.router.Ourself.Name) {
